@@ -107,9 +107,10 @@ def layouts_of(G, toks, default_merged=False):
     """Render one token list under several layouts inside the stated re-layout domain."""
     V = G.V
     n = len(toks)
-    def sep_allowed_comment(k):
-        # k = boundary before token k (1..n-1).  No comment between a default atom and its delimiter; include glued.
-        if k >= 2 and toks[k - 2] == "=" and toks[k - 1] != "{":
+    def sep_allowed_comment(k, glued=False):
+        # k = boundary before token k (1..n-1).  A comment GLUED to a default atom belongs to the verbatim default text
+        # (`5/*c*/`): only whitespace-led comments are placed between a default atom and its delimiter.
+        if glued and k >= 2 and toks[k - 2] == "=" and toks[k - 1] != "{":
             return False
         return True
     def in_include(k):
@@ -127,7 +128,7 @@ def layouts_of(G, toks, default_merged=False):
                 elif name in ("glued",):
                     s = "" if G.glue_ok(toks[k - 1], t) else " "
                 elif name == "gluedblock":
-                    s = sp if sep_allowed_comment(k) else " "
+                    s = sp if sep_allowed_comment(k, glued=True) else " "
                 elif name in ("block", "line", "doc"):
                     s = sp if sep_allowed_comment(k) else " "
                 else:
